@@ -99,6 +99,7 @@ class Exec:
         executed = []
         stray = []
         cur_f = None
+        kpos = {}
         for ev in trace[i0:]:
             if ev[0] == "act":
                 executed.append(("f", ev[2]))
@@ -108,9 +109,15 @@ class Exec:
                 if loc in m.defs:
                     executed.append(("e", loc))
                 elif loc in m.kn_target:
+                    # a linear knob is its block of target writes, in the order of its target list
                     name, j = m.kn_target[loc]
-                    if j == 0:
+                    tl = m.knobs[name]["targets"]
+                    pos = kpos.get(name, 0)
+                    if pos >= len(tl) or tl[pos] != loc:
+                        pos = 0
+                    if pos == 0 and tl[0] == loc:
                         executed.append(("k", name))
+                    kpos[name] = pos + 1 if tl[pos] == loc else 0
                 elif loc in m.ft_target:
                     if cur_f != m.ft_target[loc][0]:
                         stray.append(path_str(loc) if loc else repr(ev))
